@@ -31,8 +31,7 @@ Definition abs_frame (f : sframe) : RS.frame :=
          (match sf_kind f with KHeaders | KPriority => sf_dep f =? sf_sid f | _ => false end)
          (sf_inc f).
 
-(* RLEof is the peer closing, not a frame: it is not part of the alphabet.
-   RBadFrame None: the frame reader failed without naming a code (short fixed-size frame,
+(* RBadFrame None: the frame reader failed without naming a code (short fixed-size frame,
    bad padding): the model closes; any code would do for the specification. *)
 Definition abs_input (i : rl_input) : RS.input :=
   match i with
@@ -40,7 +39,7 @@ Definition abs_input (i : rl_input) : RS.input :=
   | RUnknownType => RS.UnknownType
   | RBadFrame (Some c) => RS.Malformed c
   | RBadFrame None => RS.Malformed c_FrameSizeError
-  | RLEof => RS.UnknownType
+  | RLEof => RS.Eof
   end.
 
 Definition input_sid (i : rl_input) : N := match i with RFrame f => sf_sid f | _ => 0 end.
